@@ -49,7 +49,30 @@ impl Engine for TcpE2eEngine {
     fn name(&self) -> &'static str {
         "tcpe2e"
     }
+    fn real_time(&self) -> bool {
+        true
+    }
     fn run_case(&self, c: &TcpE2eCase) -> CaseReport {
+        // real sockets, real clock: a request without an answer after 10 s may be the machine; the case
+        // is repeated and three such runs in a row are the library's doing
+        let rep = self.run_once(c);
+        if !rep.classes.contains(&"slow-inconclusive") {
+            return rep;
+        }
+        let rep2 = self.run_once(c);
+        if !rep2.classes.contains(&"slow-inconclusive") {
+            return rep2;
+        }
+        let mut rep3 = self.run_once(c);
+        if rep3.classes.contains(&"slow-inconclusive") {
+            rep3.violate("C01/tcp-request-never-completes-repeatedly", format!("{c:?}: in three runs in a row a request got neither a response nor an error within 10 s"));
+        }
+        rep3
+    }
+}
+
+impl TcpE2eEngine {
+    fn run_once(&self, c: &TcpE2eCase) -> CaseReport {
         let mut rep = CaseReport::default();
         let _ = crate::panichook::take_all();
         let rt = tokio::runtime::Builder::new_current_thread().enable_all().build().unwrap();
